@@ -101,6 +101,46 @@ def rules(ctx, db):
                "before a waker is stored in `%s` the connection error is checked (try_state() or state.error) in the same "
                "critical section; otherwise a future that parks after terminate() drained the table waits forever" % fld, f)
 
+    # ---------------- R1/R2 for the endpoint: close() completes every pending accept
+    ES = "compio_quic::endpoint::EndpointState"
+    es = db.adts.get(ES)
+    if es is None:
+        ctx.missing("R1", "struct EndpointState")
+    else:
+        ewf = [fl["name"] for _, fl in db.adt_fields(es) if W in fl["adts"]]
+        ctx.floor("R1", "waker-bearing fields of EndpointState", len(ewf), 1)
+        cls = [f for f in db.fns.values() if f.name == "compio_quic::endpoint::Endpoint::close"]
+        if not cls:
+            ctx.missing("R1", "Endpoint::close")
+        for f in cls:
+            mut = fields_written(db, f, ES, depth=1)
+            for fld in ewf:
+                ctx.ob("R1", "endpoint-close-drains:" + fld, fld in mut,
+                       "Endpoint::close() wakes every task parked in `%s`" % fld, f)
+            ctx.ob("R1", "endpoint-close-records-reason-first", "close" in mut and bool(calls(f, r"flume::Sender::<T>::send$|Sender::<T>::send$")),
+                   "close() records the close reason (so later accepts end) and notifies every connection", f)
+        for f in db.fns.values():
+            if not f.id.startswith("compio_quic::endpoint::"):
+                continue
+            for bb, t in f.calls():
+                if not call_matches(t, r"::(push_back|push_front|insert|push)$"):
+                    continue
+                p0 = op_place(t["args"][0]) if t.get("args") else None
+                flds = []
+                if p0 is not None:
+                    flds = [e[2] for e in p0["p"] if isinstance(e, list) and e[0] == "f" and e[3] == ES]
+                    for r_ in f.cfg.origins(p0["l"], follow_fields=True):
+                        if r_[0] == "place":
+                            flds += [e[2] for e in r_[3]["p"] if isinstance(e, list) and e[0] == "f" and e[3] == ES]
+                hit = [x for x in flds if x in ewf]
+                if not hit:
+                    continue
+                reads = [bi for bi, si, s in f.stmts() if "a" in s and any(
+                    any(isinstance(e, list) and e[0] == "f" and e[2] == "close" and e[3] == ES for e in pl["p"]) for pl in rvalue_places(s["r"]))]
+                reads += [b2 for b2, t2 in f.calls() if any((op_place(a) or {"p": []})["p"] and any(isinstance(e, list) and e[0] == "f" and e[2] == "close" and e[3] == ES for e in op_place(a)["p"]) for a in t2.get("args", []) if op_place(a))]
+                ctx.ob("R2", "park:%s@%s" % (hit[0], db.root_fn(f).name), dominated_by_any(f, reads, bb, strict=False) is not None,
+                       "a task parks in `%s` only after checking that the endpoint is not closed" % hit[0], f)
+
     # ---------------- R3 event dispatch
     ev = db.adts.get("quinn_proto::connection::Event") or db.adts.get("quinn_proto::Event")
     runs = [f for f in db.fns.values() if f.id.startswith("compio_quic::connection::") and "run" in f.id and calls(f, r"quinn_proto::connection::Connection::poll$")]
